@@ -97,10 +97,20 @@ pub fn solve_instance(input_data: serde_json::Value) -> serde_json::Value {
             schedule.next_day_transition_of(vehicle_type).clone(),
             "Initial transition".to_string(),
         );
+        #[cfg(rssched_verif)]
+        solver::verif_hooks::record_transition(
+            &format!("tstart {}", vehicle_type.0),
+            start_transition.get_transition(),
+        );
         let improved_transition = transition_local_search_solver
             .solve(start_transition)
             .unwrap()
             .unwrap_transition();
+        #[cfg(rssched_verif)]
+        solver::verif_hooks::record_transition(
+            &format!("tend {}", vehicle_type.0),
+            &improved_transition,
+        );
 
         optimized_transitions.insert(vehicle_type, improved_transition);
     }
